@@ -9,6 +9,7 @@ import (
 	"math"
 	"os"
 	"path/filepath"
+	"strings"
 	"sync"
 
 	"github.com/sarchlab/akita/v5/datarecording"
@@ -97,9 +98,9 @@ type cell struct {
 }
 
 type obs struct {
-	Panic string            `json:"panic,omitempty"`
+	Panic string              `json:"panic,omitempty"`
 	Tabs  map[string][][]cell `json:"tabs"`
-	Locs  []locRow          `json:"locs"`
+	Locs  []locRow            `json:"locs"`
 }
 
 func gi(v Vals, k int) int64 {
@@ -170,11 +171,11 @@ type fld struct {
 	cx  bool // complex
 }
 
-func ci(x int64) cell    { return cell{Kind: "i", I: x} }
-func cu(x uint64) cell   { return cell{Kind: "u", U: x} }
-func cs(x string) cell   { return cell{Kind: "s", S: []byte(x)} }
-func cf(x float64) cell  { return cell{Kind: "f", U: math.Float64bits(x)} }
-func cb(x bool) cell     { return cell{Kind: "b", B: x} }
+func ci(x int64) cell   { return cell{Kind: "i", I: x} }
+func cu(x uint64) cell  { return cell{Kind: "u", U: x} }
+func cs(x string) cell  { return cell{Kind: "s", S: []byte(x)} }
+func cf(x float64) cell { return cell{Kind: "f", U: math.Float64bits(x)} }
+func cb(x bool) cell    { return cell{Kind: "b", B: x} }
 
 func fields(e any) []fld {
 	switch x := e.(type) {
@@ -506,15 +507,24 @@ func genFloat(r *hx.Rand) uint64 {
 		return math.Float64bits([]float64{0, math.Copysign(0, -1), 1, -1, math.MaxFloat64, math.SmallestNonzeroFloat64, math.Inf(1), math.Inf(-1), 1e-300, 0.1}[r.Intn(10)])
 	default:
 		// float32-representable so that tB.F32 round-trips exactly
-		return math.Float64bits(float64(math.Float32frombits(uint32(r.U64()) &^ 0x7f800000 | 0x3f000000)))
+		return math.Float64bits(float64(math.Float32frombits(uint32(r.U64())&^0x7f800000 | 0x3f000000)))
 	}
 }
+
+var locPool = []string{"", " ", strings.Repeat("GPU[0].SA[1].CU[2].", 40), "日本語/コア[0]", "naïve.café", "a", "GPU[0].CU[3].L1", "  "}
 
 func genVals(r *hx.Rand, seq int64, bigU bool) Vals {
 	v := Vals{I: []int64{seq, genInt(r), genInt(r), genInt(r)}, U: []uint64{genUint(r, bigU), genUint(r, false), genUint(r, false)},
 		F: []uint64{genFloat(r)}, B: []bool{r.Bool()}}
 	nloc := 1 + r.Intn(6)
 	v.S = []string{genStr(r), fmt.Sprintf("loc%d%s", r.Intn(nloc), strPool[r.Intn(6)]), fmt.Sprintf("L%d", r.Intn(nloc)), genStr(r)}
+	// edge locations: the empty string, a single space, a very long one, non-ASCII
+	if r.Chance(1, 3) {
+		v.S[1] = locPool[r.Intn(len(locPool))]
+	}
+	if r.Chance(1, 4) {
+		v.S[2] = locPool[r.Intn(len(locPool))]
+	}
 	return v
 }
 
@@ -565,6 +575,19 @@ func gen(r *hx.Rand, tier string) []json.RawMessage {
 	add(input{Tables: []string{"A"}, Batch: 100000, Ops: []opIn{{Op: "ins", V: Vals{I: []int64{1}, U: []uint64{math.MaxUint64}, S: []string{"x", "l"}}}}})
 	add(input{Tables: []string{"D"}, Batch: 1, Ops: []opIn{{Op: "ins", V: Vals{I: []int64{1}}}}})
 	add(input{Tables: []string{"C", "D"}, Batch: 3, Ops: []opIn{{Op: "ins", Table: 0, V: Vals{I: []int64{1, 2}, S: []string{"q"}}}, {Op: "ins", Table: 1, V: Vals{I: []int64{2}}}}})
+	// directed: the EMPTY location string is the first location the recorder resolves (and edge locations after it)
+	emptyFirst := func(t string, batch int) {
+		var ops []opIn
+		locs := []string{"", "", "x", "", " ", "x", locPool[2], "日本語/コア[0]", ""}
+		for k, l := range locs {
+			ops = append(ops, opIn{Op: "ins", V: Vals{I: []int64{int64(k + 1), 1, 2, 3}, U: []uint64{1, 2, 3}, S: []string{l, l, locs[(k+1)%len(locs)], "skip"}, F: []uint64{0}, B: []bool{true}}})
+		}
+		add(input{Tables: []string{t}, Batch: batch, Ops: ops})
+	}
+	emptyFirst("A", 100000)
+	emptyFirst("B", 3)
+	emptyFirst("E", 1)
+	add(input{Tables: []string{"A"}, Batch: 100000, Ops: []opIn{{Op: "ins", V: Vals{I: []int64{1}, S: []string{"only", ""}}}}})
 	// directed: boundary values that must survive
 	add(input{Tables: []string{"A"}, Batch: 1, Ops: []opIn{{Op: "ins", V: Vals{I: []int64{1}, U: []uint64{1<<63 - 1}, S: []string{"'; DROP TABLE tab0; --", "naïve"}, F: []uint64{math.Float64bits(math.Inf(-1))}, B: []bool{true}}}}})
 	add(input{Tables: []string{"E", "B"}, Batch: 2, Ops: []opIn{
@@ -613,7 +636,7 @@ func init() {
 		Imports: "From Akita Require Import Lib.Base C35.Model C35.Exec.",
 		Rule: "random recorder sessions on a real SQLite file: 1..3 tables drawn from 4 struct shapes (all integer widths, uint64, float32/64, " +
 			"bool, strings, one or two location-tagged fields, ignored fields, unique/index tags), batch size 1 / mid-stream / never full " +
-			"(verif-tagged setter), 1..40 inserts with explicit Flush calls interleaved, values incl. quotes, SQL fragments, unicode, " +
+			"(verif-tagged setter), 1..40 inserts with explicit Flush calls interleaved, values incl. quotes, SQL fragments, unicode, location strings incl. the empty string (also as the FIRST location resolved), a single space, a 760-byte one and non-ASCII ones, " +
 			"int64/uint64 extremes, infinities, -0; then Close and read back with the datareader (location ids resolved) plus the raw " +
 			"location table. Concurrent sessions: 40..120 inserts split over 2/4/8 goroutines. Directed: uint64 >= 2^63, complex128 (known " +
 			"findings). Non-trivial: >= 3 inserts and a batch size that triggers a mid-stream flush. Distinct = distinct input hash.",
